@@ -83,6 +83,8 @@ inductive Reason
   | clTeConflict | duplicateCl | duplicatePseudo | pseudoAfterRegular | unknownPseudo | emptyPseudo
   | overBudget | tooManyFields
   | pathForm | missingPseudo | hostConflict | hostMismatch | endStreamWithLength | trailerNotEnd
+  /-- kawa storage exhausted while a header was being stored (`OversizedPseudoValue` in the code) -/
+  | storageFull
 deriving DecidableEq, Repr
 
 def Reason.cls : Reason → RejectClass
@@ -455,5 +457,76 @@ def h2Fields : List Field → List Crumb → List (Bytes × Bytes)
 /-- the header list `H2BlockConverter` encodes for a request (`scheme` is the converter's) -/
 def toH2 (scheme : Bytes) (r : Req) : List (Bytes × Bytes) :=
   [(sMethod, r.method), (sAuthority, r.host), (sPath, r.target), (sScheme, scheme)] ++ h2Fields r.fields r.jar
+
+-- ------------------------------------------------------ storage exhaustion --
+/-
+`store_pseudo_header`, `write_regular_header`, the cookie branch and
+`handle_trailer` copy names / values into the stream's kawa buffer with
+`write_all`; when the buffer (pool `buffer_size`) is full the header is
+rejected like any other invalid header (`OversizedPseudoValue`, the stream
+gets PROTOCOL_ERROR). The header list may be within MAX_HEADER_LIST_SIZE and
+still not fit. This is a pure *additional* rejection: it is modelled as a scan
+that runs beside the validation fold (same states), so the functions above —
+and everything proved about them — are untouched.
+-/
+
+/-- bytes the request closure writes to storage for one successfully handled header,
+    from state `s` (before) to `s'` (after) -/
+def writtenBy (s s' : VS) (k v : Bytes) : Nat :=
+  if eqNoCase k sMethod || eqNoCase k sScheme || eqNoCase k sPath || eqNoCase k sAuthority then v.length
+  else if eqNoCase k sCookie then ((s'.jar.drop s.jar.length).map fun c => c.key.length + c.val.length).sum
+  else if eqNoCase k sHost then 0
+  else v.length + (if eqNoCase k sContentLength && s.body == .length (decVal v) then 0 else k.length)
+
+/-- bytes of the crumbs a cookie header had stored before its crumb count hit the field cap
+    (`s` = the state the cookie branch starts from; those crumbs had all passed validation) -/
+def crumbBytesBeforeCap (lim : Limits) (s : VS) (v : Bytes) : Nat :=
+  let crumbs := (splitBy 59 v).filterMap fun seg =>
+    let t := trimOws seg
+    if t.isEmpty then none else some (splitCrumb t)
+  ((crumbs.take (lim.maxFields + 1 - s.count)).map fun c => c.1.length + c.2.length).sum
+
+/-- does the buffer of `cap` bytes (with `used` already taken) overflow before
+    anything else rejects the header list? -/
+def storageScan (lim : Limits) (cap : Nat) : List (Bytes × Bytes) → VS → Nat → Bool
+  | [], _, _ => false
+  | kv :: rest, s, used =>
+    match stepHeader lim s kv with
+    | .error e =>
+      -- a crumb-count overrun inside a cookie header: the earlier crumbs were stored first
+      e == .tooManyFields && eqNoCase kv.1 sCookie && s.count + 1 ≤ lim.maxFields &&
+        decide (used + crumbBytesBeforeCap lim { s with count := s.count + 1, regular := true } kv.2 > cap)
+    | .ok s' =>
+      let used' := used + writtenBy s s' kv.1 kv.2
+      if used' > cap then true else storageScan lim cap rest s' used'
+
+/-- bytes in storage after an accepted header list -/
+def storageUsed (lim : Limits) : List (Bytes × Bytes) → VS → Nat → Nat
+  | [], _, used => used
+  | kv :: rest, s, used =>
+    match stepHeader lim s kv with
+    | .error _ => used
+    | .ok s' => storageUsed lim rest s' (used + writtenBy s s' kv.1 kv.2)
+
+/-- `handle_header` (no-op callback) on a stream whose buffer holds `cap` bytes -/
+def validateRequestS (lim : Limits) (cap : Nat) (endStream : Bool) (hl : List (Bytes × Bytes)) : Except Reason Req :=
+  if storageScan lim cap hl {} 0 then .error .storageFull else validateRequest lim endStream hl
+
+/-- the trailer fold with storage: `used` bytes already taken -/
+def trailerScan (lim : Limits) (maxDecoded cap : Nat) :
+    List (Bytes × Bytes) → Nat × Nat × List (Bytes × Bytes) → Nat → Bool
+  | [], _, _ => false
+  | kv :: rest, st, used =>
+    match trailerStep lim maxDecoded st kv with
+    | .error _ => false
+    | .ok st' =>
+      let used' := if st'.2.2.length > st.2.2.length then used + kv.1.length + kv.2.length else used
+      if used' > cap then true else trailerScan lim maxDecoded cap rest st' used'
+
+def handleTrailerS (lim : Limits) (cap used : Nat) (endStream : Bool) (hl : List (Bytes × Bytes)) :
+    Except Reason (List (Bytes × Bytes)) :=
+  if endStream && trailerScan lim (min lim.maxListSize Consts.hdrMaxTrailerBytes) cap hl (0, 0, []) used then
+    .error .storageFull
+  else handleTrailer lim endStream hl
 
 end Sozu.Headers
